@@ -1030,8 +1030,16 @@ func (w *World) opProbe(op *Op) {
 	}
 	disk := w.disks[v.disk]
 	H := int(v.root.Height)
+	root := v.root
+	if w.cfg.Format == FmtMarshaler && op.Val%3 == 1 {
+		// a legacy root record: an empty NodeFormat means the v1marshaler format
+		lr := *v.root
+		lr.NodeFormat = ""
+		root = &lr
+		w.st.Probes["probe-legacy-root-record"]++
+	}
 	disk.BeginCall()
-	m, r := w.loadRoot(v.root, v.disk, nil, nil)
+	m, r := w.loadRoot(root, v.disk, nil, nil)
 	_, _, lmCalls, _ := disk.Window()
 	if r.bad() {
 		w.failFor("C05", "reload-fails", "LoadMast: %s", r)
